@@ -569,6 +569,36 @@ def _pad(m, o):
     return text_op(m, o, a, call, py, 'obj', ip)
 
 
+@op('pad_huge')
+def _pad_huge(m, o):
+    """A padding far beyond what can be projected character by character: the result is NOT kept as a register; its length
+    and a sample of positions (text and settings) are logged and judged against the padding contract."""
+    x = m.regs[o['r']]
+    meth, width = o['m'], o['width']
+    fill = o.get('fill', ' ')
+    ext = o.get('extend', True)
+    S = _is_S(m, o['r'])
+    if meth == 'zfill':
+        call = (lambda: x.zfill(width)) if True else None
+        fill, ext = '0', True
+    elif S:
+        call = lambda: getattr(x, meth)(width, fill, inplace=False, extend_formatting=ext)
+    else:
+        ext = True
+        call = lambda: getattr(x, meth)(width, fill)
+    n = len(x.base_str)
+
+    def obs(v):
+        total = len(v)
+        num = max(0, width - n)
+        left = num if meth in ('rjust', 'zfill') else (num // 2 if meth == 'center' else 0)
+        pos = sorted({p for p in (0, 1, left - 1, left, left + n - 1, left + n, total - 2, total - 1, total // 2) if 0 <= p < total})
+        return {'len': total, 'pos': pos, 'chars': [ord(v.base_str[p]) for p in pos],
+                'sty': [[[m.inst_id(s_), m.texts.tid(str(s_))] for s_ in v.ansi_settings_at(p)] for p in pos],
+                'beyond': len(v.ansi_settings_at(total)), 'rendered_len': len(str(v))}
+    return {'m': meth, 'width': clamp(width), 'fill': cps(fill), 'extend': b(ext)}, call, 'scalar', {'obs': obs}
+
+
 @op('strip')
 def _strip(m, o):
     x = m.regs[o['r']]
